@@ -13,6 +13,8 @@ ENGINES = {
     "C46": "e2_build",
     "C42": "e2_determinism",
     "C23": "e3_gen",
+    "C22": "e4_exc",
+    "C44": "e4_exc",
 }
 
 
